@@ -12,7 +12,7 @@ VERIF = vf.VERIF
 # property -> (level text, level note, technique, design_ref)
 CLAIMS = {
     'C01': (
-        'Every step of the generator is decided by the solver against an independent reference model, as a chain of lemmas over the real code: (P) both bucket-mapping functions == reference Pearson chain for all 2^32 inputs, in the table and table-less configurations; (K) checksum update == reference with the real mapping; (I) increment touches exactly one counter, wrapping, for arbitrary counter values; (S) update(piece) produces exactly the call trace TLSH defines (salts, byte pairing, order, checksum chain, window shift) from an arbitrary generator state, for concrete tail fill 0..4 and piece lengths up to 9 with symbolic contents; (F) finalize_with_options == reference on ALL states (symbolic u32 counters incl. >=2^24/2^31, full-range length, all 32 option settings): gate order, checksum, length code, body; (Q) Q-ratio arithmetic in both modes on q3<2^8 and, at full width, on q3 a power of two; (Q*) the same arithmetic for ALL 2^96 quartile triples and both modes by a second back end: the MIR of finalize_with_options (slice from the last select_nth_unstable to aggregate_buckets, every path) translated to SMT-LIB2 bit-vector + Float32 terms and compared with the hand-written reference formulas by z3 and cvc5, including that body and Q ratios use the same quartiles and that the product cannot overflow nor the divisor be zero. The composition (induction over the byte stream; re-indexing) is written in DESIGN.md and is not machine-checked.',
+        'Every step of the generator is decided by the solver against an independent reference model, as a chain of lemmas over the real code: (P) both bucket-mapping functions == reference Pearson chain for all 2^32 inputs, in the table and table-less configurations; (K) checksum update == reference with the real mapping; (I) increment touches exactly one counter, wrapping, for arbitrary counter values; (S) update(piece) produces exactly the call trace TLSH defines (salts, byte pairing, order, checksum chain, window shift) from an arbitrary generator state, for concrete tail fill 0..4 and piece lengths up to 9 with symbolic contents; (F) finalize_with_options == reference on ALL states (symbolic u32 counters incl. >=2^24/2^31, full-range length, all 32 option settings): gate order, checksum, length code, body (naive aggregation; with the default features: the run-time dispatch ladder for every detection outcome and each SSE2/SSSE3/AVX2 aggregation backend == packed reference dibits for all counters and ordered quartiles); (Q) Q-ratio arithmetic in both modes on q3<2^8 and, at full width, on q3 a power of two; (Q*) the same arithmetic for ALL 2^96 quartile triples and both modes by a second back end: the MIR of finalize_with_options (slice from the last select_nth_unstable to aggregate_buckets, every path) translated to SMT-LIB2 bit-vector + Float32 terms and compared with the hand-written reference formulas by z3 and cvc5, including that body and Q ratios use the same quartiles and that the product cannot overflow nor the divisor be zero. The composition (induction over the byte stream; re-indexing) is written in DESIGN.md and is not machine-checked.',
         "Trusted: Kani's MIR->goto translation, CBMC 6.11 + CaDiCaL, the reference model in harness/refmodel.rs (independent table copies), the stubs listed per harness in the evidence (each a model of an unsupported intrinsic, a proved contract, or a caller-supplied trait impl). Bounds: piece length <= 9 per update call (any number of calls by induction from an arbitrary state); select_nth_unstable replaced by its documented contract (order statistic; honest counting model on 48 buckets, any ordered triple on 128/256); Q-ratio values in Kani only on the stated domains (legacy float mode relies on CBMC's IEEE-754 semantics and an integer model of u32->f32 rounding); at full width by the MIR->SMT instance, which trusts rustc's MIR dump, my MIR->SMT-LIB translator (validated in the thorough tier against the real code on 40 quartile triples; statements outside its fragment are havocked = over-approximated), SMT-LIB FloatingPoint semantics for Rust f32, and z3 4.8.12 / cvc5 1.0.3 (a definite answer contradicted by no solver configuration; unknown or error = undecided).",
         'Kani/CBMC bounded model checking (SAT) of the compiled MIR with symbolic inputs; lemma decomposition; plus symbolic execution of the nightly MIR dump into SMT-LIB2 (bit-vectors + IEEE-754) decided by z3 and cvc5 for the loop-free Q-ratio slice; native replay of counterexamples',
         'DESIGN.md section 5, C01',
